@@ -131,41 +131,82 @@ def bytes_pred_set(method):
 
 
 class CharMap(object):
-    """A code point -> code point map given as segments (lo, hi, delta) with identity
-    elsewhere; `multi` lists code points whose image is not a single code point."""
+    """A code point -> code point map (str.lower / str.upper) as a short list of segments
+    (lo, hi, kind, arg) with identity elsewhere.  kinds: 'add' c+arg; 'or1' c|1;
+    'upeven' (c+1)&~1; 'and1' c&~1; 'downodd' (c-1)|1.  `multi` lists code points whose
+    image is not a single code point.  Built from CPython's own answers, then checked
+    exhaustively against them."""
+
+    KINDS = {
+        "or1": lambda c, a: c | 1,
+        "upeven": lambda c, a: (c + 1) & ~1,
+        "and1": lambda c, a: c & ~1,
+        "downodd": lambda c, a: (c - 1) | 1,
+    }
 
     def __init__(self, fn, name, limit=MAXCP):
         self.name = name
-        segs = []
+        img = {}
         multi = {}
-        cur = None
         for c in range(limit + 1):
             if 0xD800 <= c <= 0xDFFF:
                 continue
             r = fn(chr(c))
             if len(r) != 1:
                 multi[c] = r
-                continue
-            d = ord(r) - c
-            if d == 0:
-                cur = None
-                continue
-            if cur is not None and cur[1] == c - 1 and cur[2] == d:
-                cur[1] = c
-            else:
-                cur = [c, c, d]
-                segs.append(cur)
-        self.segs = [tuple(s) for s in segs]
+            elif ord(r) != c:
+                img[c] = ord(r)
         self.multi = multi
         self.multi_set = CharSet(ranges_from_sorted(sorted(multi)), name + ".multi")
-        self._los = [s[0] for s in self.segs]
+
+        def val(c):
+            return img.get(c, c)
+
+        def ok(c):
+            return c <= limit and c not in multi and not (0xD800 <= c <= 0xDFFF)
+        segs = []
+        todo = sorted(img)
+        i = 0
+        while i < len(todo):
+            c0 = todo[i]
+            best = None
+            cands = [("add", img[c0] - c0)] + [(k, 0) for k in self.KINDS]
+            for kind, arg in cands:
+                f = (lambda c, a=arg: c + a) if kind == "add" else (lambda c, k=kind: self.KINDS[k](c, 0))
+                if f(c0) != img[c0]:
+                    continue
+                hi = c0
+                c = c0 + 1
+                while ok(c) and f(c) == val(c):
+                    if c in img:
+                        hi = c
+                    c += 1
+                    if c - hi > 64:
+                        break
+                if best is None or hi > best[1]:
+                    best = (c0, hi, kind, arg)
+            segs.append(best)
+            while i < len(todo) and todo[i] <= best[1]:
+                i += 1
+        self.segs = segs
+        self._los = [s_[0] for s_ in segs]
         self._cache = {}
         self._tpl = {}
+        # self-check against CPython
+        for c in range(limit + 1):
+            if ok(c) and self.apply_int(c) != val(c):
+                raise AssertionError("CharMap %s wrong at %x" % (name, c))
+
+    def _f_int(self, seg, c):
+        lo, hi, kind, arg = seg
+        if kind == "add":
+            return c + arg
+        return self.KINDS[kind](c, arg)
 
     def apply_int(self, c):
         i = bisect.bisect_right(self._los, c) - 1
         if i >= 0 and c <= self.segs[i][1]:
-            return c + self.segs[i][2]
+            return self._f_int(self.segs[i], c)
         return c
 
     def apply(self, ch):
@@ -188,16 +229,30 @@ class CharMap(object):
             return r
         return ent[1]
 
+    def _f_sym(self, seg, ch):
+        lo, hi, kind, arg = seg
+        bits = ch.size()
+        one = z3.BitVecVal(1, bits)
+        if kind == "add":
+            return ch + z3.BitVecVal(arg % (1 << bits), bits)
+        if kind == "or1":
+            return ch | one
+        if kind == "upeven":
+            return (ch + one) & ~one
+        if kind == "and1":
+            return ch & ~one
+        return (ch - one) | one
+
     def _build(self, ch, a, b):
         n = b - a
-        bits = ch.size()
         if n == 0:
             return ch
-        if n <= 3:
+        if n <= 2:
             r = ch
-            for lo, hi, d in reversed(self.segs[a:b]):
+            for seg in reversed(self.segs[a:b]):
+                lo, hi = seg[0], seg[1]
                 c = (ch == lo) if lo == hi else z3.And(z3.ULE(lo, ch), z3.ULE(ch, hi))
-                r = z3.If(c, ch + z3.BitVecVal(d % (1 << bits), bits), r)
+                r = z3.If(c, self._f_sym(seg, ch), r)
             return r
         mid = (a + b) // 2
         return z3.If(z3.ULT(ch, self.segs[mid][0]), self._build(ch, a, mid), self._build(ch, mid, b))
